@@ -888,7 +888,8 @@ func (n *NEO) registerCandidate(ic *interop.Context, args []stackitem.Item) stac
 	if err := ic.VM.AddDatoshi(n.getRegisterPriceInternal(ic.DAO)); err != nil {
 		panic(fmt.Errorf("%w executing %s/registerCandidate", err, n.Hash.StringLE()))
 	}
-	var err = n.RegisterCandidateInternal(ic, pub)
+	// The witness of the key is needed irrespective of the hardfork.
+	var err = n.checkRegisterCandidate(ic, pub)
 	return stackitem.NewBool(err == nil)
 }
 
